@@ -17,6 +17,7 @@
     Ids are *computed* the way create_new_recording formats them; every listing then has to recover the
     category (and the id) from the id text / file name / bucket key the way the code does. *)
 From Playback Require Import Base.Str Cassette.Matcher Cassette.Window.
+From Coq Require Import Permutation.
 Open Scope nat_scope.
 Open Scope list_scope.
 
@@ -353,7 +354,37 @@ Section Model.
   Definition spec_recs_s3 (s : list rec) (c : str) (so eo : option Z) (now : Z) (f : meta) : list rec :=
     filter (fun r => wanted enc c f r && in_window so eo now r) s.
 
-  (** how many ids a lookup with this limit must return *)
-  Definition expected_count (limit : option nat) (matches : nat) : nat :=
-    match limit with Some l => Nat.min l matches | None => matches end.
 End Model.
+
+(** how many ids a lookup with this limit must return *)
+Definition expected_count (limit : option nat) (matches : nat) : nat :=
+  match limit with Some l => Nat.min l matches | None => matches end.
+
+(** what C10 asks of a listing [out] against the specification set [spec]: no duplicates, nothing
+    outside the specification, min(limit, matches) elements, all of them without a limit *)
+Definition exact_listing (out spec : list str) (limit : option nat) : Prop :=
+  NoDup out /\ incl out spec /\ length out = expected_count limit (length spec) /\
+  (limit = None -> Permutation out spec).
+
+(** metadata as the in-memory / file cassette matches it (decoded: unchanged) *)
+Definition same (m : meta) : meta := m.
+
+(** domain of the file cassette: the category has no '/' and no '.', the uuid text no '.' *)
+Definition wf_file (r : rec) : Prop := ~ In SLASH (r_cat r) /\ ~ In DOT (r_cat r) /\ ~ In DOT (r_uuid r).
+(** domain on which the three cassettes store the same recordings: additionally the uuid text has no
+    '/' and no '_' (it is hex), so that distinct ids get distinct file names *)
+Definition wf_all (r : rec) : Prop :=
+  wf_file r /\ ~ In SLASH (r_uuid r) /\ ~ In USCORE (r_uuid r).
+(** saving a recording again keeps its id: same category and uuid => same creation day *)
+Definition resave_consistent (h : list rec) : Prop :=
+  forall x y, In x h -> In y h -> r_cat x = r_cat y -> r_uuid x = r_uuid y -> r_day x = r_day y.
+
+(** limit is None or >= 1 (limit = 0: "no limit" on the in-memory / file cassette, "nothing" on S3) *)
+Definition limit_ok (limit : option nat) : Prop := limit <> Some 0.
+
+(** the incomplete flag of a recording's metadata is True *)
+Definition flag_true (m : meta) : bool :=
+  match get_meta INCOMPLETE m with MBool true => true | _ => false end.
+(** the flag is one of the values the recorder writes (True / False), None, or absent *)
+Definition flag_domain (m : meta) : Prop :=
+  get_meta INCOMPLETE m = MBool true \/ get_meta INCOMPLETE m = MBool false \/ get_meta INCOMPLETE m = MNone.
